@@ -739,6 +739,12 @@ class StrKind:
             if "SIGNATURE_FIXED" in base:
                 return K("SIGNATURE_FIXED")
             return base
+        if isinstance(f, ast.Attribute) and fname in ("encode", "decode", "strip", "lstrip", "rstrip", "lower", "upper", "title",
+                                                      "casefold", "expandtabs", "translate", "removeprefix", "removesuffix", "center",
+                                                      "ljust", "rjust", "zfill", "swapcase", "capitalize"):
+            # text -> text: whatever the receiver was it still is (hand-made escaping does not make user text code-safe: a
+            # quote-escaped class name inside an f-string literal still opens replacement fields with `{`)
+            return self.classify(f.value, fctx, module, depth + 1)
         if fname in ("tuple", "values") and (e.args or isinstance(f, ast.Attribute)):
             inner = self.classify(e.args[0] if e.args else f.value, fctx, module, depth + 1)
             if "PARAMS" in inner:
